@@ -7,7 +7,8 @@
      snowfakery/object_rows.py             ObjectRow.__getstate__/__setstate__ (56-66),
      snowfakery/data_generator.py          load_continuation_yaml / save_continuation_yaml (90-101),
                                            initialize_globals (237-260),
-     snowfakery/utils/yaml_utils.py        SnowfakeryDumper = SafeDumper (which values have a representer).
+     snowfakery/utils/yaml_utils.py        SnowfakeryDumper = SafeDumper (which values have a representer;
+                                           extra representers: data_generator_runtime.py 71-83).
 
    The file is a TREE (maps / lists / typed scalars).  `getstate` is Globals.__getstate__;
    `sort_tree` is the key sorting that yaml.dump performs on every mapping (PyYAML
@@ -32,7 +33,7 @@ Inductive value :=
 | VStr (s : string)                           (* UTF-8 bytes *)
 | VDate (ordinal : Z)                         (* date.toordinal() *)
 | VDateTime (wall_us : Z) (offset_s : option Z) (* naive wall clock in microseconds, utcoffset *)
-| VDec (txt : string)                         (* decimal.Decimal *)
+| VDec (txt : string)                         (* decimal.Decimal: str(d), opaque token *)
 | VRow (table : string) (id : Z)              (* ObjectRow *)
 | VSlot (table : string) (id : option Z)      (* NicknameSlot (forward reference) *)
 | VLazy (table : string) (id : Z)             (* LazyLoadedObjectReference (random_reference) *)
@@ -58,13 +59,15 @@ Definition value_eqb (a b : value) : bool :=
 (* isinstance(v, ObjectRow) *)
 Definition is_row (v : value) : bool := match v with VRow _ _ => true | _ => false end.
 
-(* SnowfakeryDumper (= yaml.SafeDumper + defaultdict) has a representer for the value's type.
-   Decimal, ObjectRow, ObjectReference, NicknameSlot, LazyLoadedObjectReference fall through to
-   represent_undefined, which raises RepresenterError. *)
+(* SnowfakeryDumper (= yaml.SafeDumper + defaultdict + Decimal) has a representer for the value's
+   type.  Decimal is written as the tagged scalar `!snowfakery_decimal 'str(d)'` and read back by
+   the matching SafeLoader constructor (data_generator_runtime.py, next to the defaultdict
+   representer).  ObjectRow, ObjectReference, NicknameSlot, LazyLoadedObjectReference fall
+   through to represent_undefined, which raises RepresenterError. *)
 Definition representable_value (v : value) : bool :=
   match v with
-  | VNull | VBool _ | VInt _ | VFloat _ | VStr _ | VDate _ | VDateTime _ _ => true
-  | VDec _ | VRow _ _ | VSlot _ _ | VLazy _ _ | VRef _ _ => false
+  | VNull | VBool _ | VInt _ | VFloat _ | VStr _ | VDate _ | VDateTime _ _ | VDec _ => true
+  | VRow _ _ | VSlot _ _ | VLazy _ _ | VRef _ _ => false
   end.
 
 (* -------- Python dicts with str keys: association lists in insertion order -------- *)
@@ -385,8 +388,8 @@ Definition wf (g : globals) : bool :=
   forallb (fun kv => nodup_keys (r_values (snd kv))) (g_nicks g) &&
   forallb (fun kv => nodup_keys (r_values (snd kv))) (g_tables g).
 
-(* every stored field value (and today) has a type that SafeDumper can write; in particular
-   no row / slot / lazy reference / Decimal (findings K1, K2) *)
+(* every stored field value (and today) has a type that SnowfakeryDumper can write; in particular
+   no row (finding K1) and no slot / lazy reference / literal reference (finding K2) *)
 Definition snapshot_ok (g : globals) : bool :=
   wf g && representable_value (g_today g) &&
   forallb (fun kv => row_ok (snd kv)) (g_nicks g) &&
